@@ -66,7 +66,8 @@ func NewSingleSymmetricKeySealer() (Sealer, error) {
 
 func (s singleSymmetricKeySealer) Seal(u *url.URL) (*url.URL, error) {
 	requestURI := (&url.URL{
-		Path:     u.EscapedPath(),
+		Path:     u.Path,
+		RawPath:  u.RawPath,
 		RawQuery: u.RawQuery,
 	}).String()
 	nbf := time.Now().Add(-10 * time.Second)
